@@ -534,17 +534,17 @@ class AttributeCollection(MutableMapping[int, Attribute]):
                     'parser',
                 )
                 return left
-            # Attributes not in TREAT_AS_WITHDRAW or DISCARD fall through to this log
-            # This catches implementation gaps - if this fires, add aid to one of the lists
-            log.debug(
-                lambda: (
-                    'invalid flag for attribute {} (flag 0x{:02X}, aid 0x{:02X}) unspecified (should not happen)'.format(
-                        Attribute.CODE.names.get(aid, 'unset'), flag, aid
-                    )
+            if kls and kls.TREAT_AS_WITHDRAW:
+                return left
+            # neither treat-as-withdraw nor discard (MP_REACH_NLRI, MP_UNREACH_NLRI, ...): RFC 4271 6.3
+            # Attribute Flags Error; dropping the attribute silently lets the rest of the UPDATE through
+            raise Notify(
+                3,
+                4,
+                'invalid flag for attribute {} (flag 0x{:02X}, aid 0x{:02X})'.format(
+                    Attribute.CODE.names.get(aid, 'unset'), flag, aid
                 ),
-                'parser',
             )
-            return left
 
         # it is an unknown transitive attribute we need to pass on
         if flag & Attribute.Flag.TRANSITIVE:
